@@ -86,6 +86,18 @@ func counterCall(p *Prog, v ssa.Value) *ssa.Call {
 			ok := add != nil
 			if add != nil {
 				t := forwardTaint(add)
+				// the issued value is the incremented counter itself: arithmetic on it (a modulus, a mask, a
+				// shift) maps distinct counter values to one message counter
+				for _, b := range c.Blocks {
+					for _, ins := range b.Instrs {
+						if bo, isBO := ins.(*ssa.BinOp); isBO && (t[bo.X] || t[bo.Y]) {
+							switch bo.Op {
+							case token.REM, token.AND, token.SHR, token.QUO, token.AND_NOT, token.SUB, token.OR, token.XOR, token.MUL, token.SHL:
+								ok = false
+							}
+						}
+					}
+				}
 				for _, b := range c.Blocks {
 					ret, isRet := b.Instrs[len(b.Instrs)-1].(*ssa.Return)
 					if !isRet || len(ret.Results) != 1 {
@@ -405,6 +417,50 @@ func c13Bounded(p *Prog, ib *inbound, ls *Lockset, r *Report) {
 						lc2 := liftInScope(call)
 						okEvict = blockReaches(lc2.Block(), a.Ins.Block()) && !blockReaches(a.Ins.Block(), lc2.Block())
 						desc = fmt.Sprintf("eviction when more than %d entries", k)
+						// the bound test is the only thing deciding the eviction: any other condition (other than a
+						// length test of the candidate list) lets the cache grow past the bound
+						for _, g2 := range Guards(call.Block()) {
+							if g2.Cond == g.Cond {
+								continue
+							}
+							if ex, isEx := g2.Cond.(*ssa.Extract); isEx {
+								if _, isNext := ex.Tuple.(*ssa.Next); isNext {
+									continue // the loop collecting the keys has run to its end
+								}
+							}
+							if bo2, isB := g2.Cond.(*ssa.BinOp); isB {
+								if ph, isPh := bo2.X.(*ssa.Phi); isPh && isInductionPhi(ph) {
+									continue // ... or a counting loop has
+								}
+								if bo3, isB3 := bo2.X.(*ssa.BinOp); isB3 {
+									if ph, isPh := bo3.X.(*ssa.Phi); isPh && isInductionPhi(ph) {
+										continue
+									}
+								}
+								if lc3, isC := bo2.X.(*ssa.Call); isC && builtinName(&lc3.Call) == "len" {
+									// "the candidate list is not empty" (before indexing it) is the only other test allowed
+									if k2, isK2 := constInt(bo2.Y); isK2 && !loadsField(lc3.Call.Args[0], a.Field) {
+										nonEmpty := (bo2.Op == token.GTR && k2 == 0 && g2.Val) || (bo2.Op == token.NEQ && k2 == 0 && g2.Val) || (bo2.Op == token.GEQ && k2 == 1 && g2.Val) ||
+											(bo2.Op == token.EQL && k2 == 0 && !g2.Val) || (bo2.Op == token.LSS && k2 == 1 && !g2.Val) || (bo2.Op == token.LEQ && k2 == 0 && !g2.Val)
+										if _, isSl := lc3.Call.Args[0].Type().Underlying().(*types.Slice); isSl && nonEmpty {
+											continue
+										}
+									}
+								}
+							}
+							okEvict = false
+							desc += "; the eviction also depends on another condition (" + Path(g2.Cond) + "): when it does not hold the cache grows past the bound"
+						}
+						// the candidate list is built by appending to an empty slice: a slice made with a length is
+						// zero-filled, appended keys come after the zeros, and the 'oldest' key found is the zero value
+						for _, b3 := range call.Parent().Blocks {
+							for _, i3 := range b3.Instrs {
+								if mk, isMk := i3.(*ssa.MakeSlice); isMk && zeroFilledThenAppended(mk) {
+									okEvict = false
+									desc += "; the candidate list is made with a non-zero length and then appended to (" + p.InstrPos(mk) + "): its first elements are zero values, not keys of the cache"
+								}
+							}
+						}
 						// the evicted key is one of the cache's own keys (found by iterating the cache): only then does
 						// every eviction remove an entry, whatever the history of counters was
 						fromKeys := false
@@ -479,6 +535,52 @@ func c13Bounded(p *Prog, ib *inbound, ls *Lockset, r *Report) {
 			}
 		}
 		r.Check("R7", FnName(fn)+"|deletes-reference", ok, p.Pos(fn.Pos()), "the referenced counter is deleted from the request cache")
+		// ... and it does so exactly when a reference is given and cached (truth table over the two atoms)
+		var del *ssa.Call
+		for _, d := range ls.accessesIn(F("Sender.reqMsgCache"), fn) {
+			if call, isCall := d.Ins.(*ssa.Call); isCall && builtinName(&call.Call) == "delete" {
+				del = call
+			}
+		}
+		if del != nil {
+			bad := ""
+			for m := 0; m < 4; m++ {
+				given, cached := m&1 != 0, m&2 != 0
+				atom := func(c ssa.Value) (bool, bool) {
+					if x, trueNil, isNil := nilTest(c); isNil {
+						if _, isP := x.(*ssa.Parameter); isP {
+							return true, trueNil != given
+						}
+						return false, false
+					}
+					switch y := c.(type) {
+					case *ssa.Call:
+						// a presence test of the cache (a helper reading the cache and returning a boolean)
+						if isBoolType(y.Type()) {
+							for _, cal := range p.Callees(y) {
+								if len(ls.accessesIn(F("Sender.reqMsgCache"), cal)) > 0 {
+									return true, cached
+								}
+							}
+						}
+					case *ssa.Extract:
+						if lk, isLk := y.Tuple.(*ssa.Lookup); isLk && lk.CommaOk && y.Index == 1 && strings.HasSuffix(Path(lk.X), "."+FN("Sender.reqMsgCache")) {
+							return true, cached
+						}
+					}
+					return false, false
+				}
+				reach := reachableUnderPhi(fn, del, atom)
+				// deleting an absent key is harmless: only "given and cached => deleted" and "not given => not deleted" are required
+				if given && cached && !reach {
+					bad = "a reference that is given and cached is not deleted"
+				}
+				if !given && reach {
+					bad = "the delete is reachable without a reference"
+				}
+			}
+			r.Check("R7", FnName(fn)+"|deletes-iff-referenced", bad == "", p.InstrPos(del), "the answered request is forgotten whenever a response references a cached counter: "+bad)
+		}
 	}
 }
 
@@ -549,7 +651,7 @@ func c13Hash(p *Prog, ib *inbound, r *Report) {
 		}
 		reached := false
 		if idx >= 0 && idx < len(h.Params) {
-			t := forwardTaint(h.Params[idx])
+			t := contentTaint(h.Params[idx])
 			forEachCall(h, func(s2 ssa.CallInstruction) {
 				if c2 := s2.Common().StaticCallee(); c2 != nil && strings.HasPrefix(fnPkgPath(c2), "crypto/") {
 					for _, x := range s2.Common().Args {
@@ -564,7 +666,7 @@ func c13Hash(p *Prog, ib *inbound, r *Report) {
 			okBoth = false
 		}
 	}
-	r.Check("R8", FnName(h)+"|digest-input", okBoth, p.Pos(h.Pos()), "destination and command both flow into the digest")
+	r.Check("R8", FnName(h)+"|digest-input", okBoth, p.Pos(h.Pos()), "the content of destination and command both flow into the digest (not merely a length or a comparison result)")
 	// the value looked up and the value cached are this hash
 	ok := false
 	forEachCall(fn, func(site ssa.CallInstruction) {
@@ -628,4 +730,104 @@ func c13Alignment(p *Prog, ls *Lockset, r *Report) {
 		}
 	}
 	r.Floor("R9", "64-bit atomic fields", n+nTyped, 4)
+}
+
+// zeroFilledThenAppended: the slice is made with a length that is not the constant 0, values are appended to it,
+// and no element of it is ever assigned by index — the classic make([]T, n) + append mistake.
+func zeroFilledThenAppended(mk *ssa.MakeSlice) bool {
+	if k, isK := constInt(mk.Len); isK && k == 0 {
+		return false
+	}
+	t := forwardTaint(mk)
+	appended, assigned := false, false
+	for v := range t {
+		switch x := v.(type) {
+		case *ssa.Call:
+			if builtinName(&x.Call) == "append" && len(x.Call.Args) > 0 && t[x.Call.Args[0]] {
+				appended = true
+			}
+			if builtinName(&x.Call) == "copy" && len(x.Call.Args) > 0 && t[x.Call.Args[0]] {
+				assigned = true
+			}
+		case *ssa.IndexAddr:
+			if x.Referrers() != nil {
+				for _, ref := range *x.Referrers() {
+					if st, isSt := ref.(*ssa.Store); isSt && st.Addr == ssa.Value(x) {
+						assigned = true
+					}
+				}
+			}
+		}
+	}
+	return appended && !assigned
+}
+
+// contentTaint: forward flow of the content of a value — like forwardTaint, but a length, a capacity or the
+// result of a comparison does not carry the content on.
+func contentTaint(seeds ...ssa.Value) map[ssa.Value]bool {
+	t := forwardTaint(seeds...)
+	// remove what is reachable only through len/cap/comparisons: recompute with those cut
+	cut := map[ssa.Value]bool{}
+	for v := range t {
+		switch x := v.(type) {
+		case *ssa.Call:
+			if bn := builtinName(&x.Call); bn == "len" || bn == "cap" {
+				cut[v] = true
+			}
+		case *ssa.BinOp:
+			switch x.Op {
+			case token.EQL, token.NEQ, token.LSS, token.GTR, token.LEQ, token.GEQ:
+				cut[v] = true
+			}
+		}
+	}
+	if len(cut) == 0 {
+		return t
+	}
+	res := map[ssa.Value]bool{}
+	var work []ssa.Value
+	for _, s := range seeds {
+		if s != nil {
+			res[s] = true
+			work = append(work, s)
+		}
+	}
+	for len(work) > 0 {
+		v := work[len(work)-1]
+		work = work[:len(work)-1]
+		refs := v.Referrers()
+		if refs == nil {
+			continue
+		}
+		for _, u := range *refs {
+			switch x := u.(type) {
+			case *ssa.Store:
+				if x.Val == v {
+					addr := x.Addr
+					for d := 0; d < 4; d++ {
+						switch y := addr.(type) {
+						case *ssa.IndexAddr:
+							addr = y.X
+							continue
+						case *ssa.FieldAddr:
+							addr = y.X
+							continue
+						}
+						break
+					}
+					if a, ok := addr.(*ssa.Alloc); ok && !res[a] {
+						res[a] = true
+						work = append(work, a)
+					}
+				}
+			case ssa.Value:
+				if cut[x] || res[x] {
+					continue
+				}
+				res[x] = true
+				work = append(work, x)
+			}
+		}
+	}
+	return res
 }
